@@ -11,6 +11,7 @@
 import PyhamModel.Lemmas.CapstoneWF
 import PyhamModel.Lemmas.Compose
 import PyhamModel.Lemmas.SessionLemmas
+import PyhamModel.Lemmas.HistoryProfile
 namespace Pyham.Witness
 open Pyham
 
@@ -420,5 +421,13 @@ example (ops : List Op) : ∃ H, load simpleEx.T simpleEx.nm simpleEx.file = .ok
     (run (SState.init H) ops).1.H = H ∧ (run (SState.init H) ops).2 = ops.map (answer H) := by
   obtain ⟨H, hl, _⟩ := simpleEx_loads
   exact ⟨H, hl, C17_history_independent H ops⟩
+
+/-- non-vacuity of `C09_profile_numbers_are_the_history`: the repository's fixture has one duplication event with two
+    copies on the branch into Euarchontoglires/Primates side ([0, 1]), the second witness two events with four copies -/
+theorem history_counts_nonzero :
+    (simpleEx.fams.map fun f => copiesInto [0, 1] f.1 f.2).sum = 2 ∧
+    (simpleEx.fams.map fun f => eventsInto [0, 1] f.1 f.2).sum = 1 ∧
+    (elided.fams.map fun f => copiesInto [0, 2] f.1 f.2).sum = 4 ∧
+    (elided.fams.map fun f => eventsInto [0, 2] f.1 f.2).sum = 2 := by decide
 
 end Pyham.Witness
